@@ -518,8 +518,142 @@ def _wrap_helper(ctx) -> FuncInfo:
     raise AnalysisError("R-WRAP: the writer has no function that tests a line length and appends (wrap helper vanished)")
 
 
-def _fstring_parts(e: ast.JoinedStr):
-    """(leading literal, trailing literal)"""
+def flatten_template(ctx, fi: FuncInfo, e: ast.expr, depth=0) -> Optional[list]:
+    """A string-building expression as a flat list of parts, whatever way it is written (f-string, str.format, +, named
+    constants, local names holding pieces, helper functions returning text):
+        ('lit', text) | ('hole', expr, spec text or None, FuncInfo) | ('alt', [parts, parts, ...])
+    None if e is not recognisably a text template."""
+    if depth > 8 or e is None:
+        return None
+    if isinstance(e, ast.Constant):
+        return [("lit", e.value)] if isinstance(e.value, str) else None
+    if isinstance(e, ast.JoinedStr):
+        out = []
+        for p in e.values:
+            if isinstance(p, ast.Constant):
+                out.append(("lit", str(p.value)))
+                continue
+            spec = None
+            if p.format_spec is not None:
+                spec = try_const(ctx, fi, p.format_spec)
+                if not isinstance(spec, str):
+                    spec = "?"
+            inner = flatten_template(ctx, fi, p.value, depth + 1) if spec is None and p.conversion == -1 else None
+            if inner is not None:
+                out += inner
+            else:
+                out.append(("hole", p.value, spec, fi))
+        return _merge_lits(out)
+    if isinstance(e, (ast.Name, ast.Attribute)):
+        is_local = isinstance(e, ast.Name) and (e.id in assigned_names(fi.node) or e.id in params_of(fi.node))
+        if not is_local:
+            c = try_const(ctx, fi, e)
+            return [("lit", c)] if isinstance(c, str) else None
+        if e.id in params_of(fi.node) and e.id not in assigned_names(fi.node):
+            return None
+        defs = sorted(assigned_names(fi.node).get(e.id, []), key=lambda d: getattr(d, "lineno", 0))
+        # x = f"..." ; x += f"..."  : concatenation in program order (straight-line use only)
+        if defs and all(isinstance(d, (ast.Assign, ast.AnnAssign, ast.AugAssign, ast.NamedExpr)) for d in defs):
+            first = [d for d in defs if not isinstance(d, ast.AugAssign)]
+            augs = [d for d in defs if isinstance(d, ast.AugAssign)]
+            if len(first) == 1 and all(isinstance(d.op, ast.Add) and d.lineno > first[0].lineno for d in augs):
+                parts = flatten_template(ctx, fi, first[0].value, depth + 1)
+                if parts is None:
+                    return None
+                for d in augs:
+                    more = flatten_template(ctx, fi, d.value, depth + 1)
+                    if more is None:
+                        return None
+                    parts = parts + more
+                return _merge_lits(parts)
+            if not augs and len(first) > 1:
+                alts = [flatten_template(ctx, fi, d.value, depth + 1) for d in first]
+                if all(a is not None for a in alts):
+                    return [("alt", alts)]
+        return None
+    if isinstance(e, ast.IfExp):
+        a, b = flatten_template(ctx, fi, e.body, depth + 1), flatten_template(ctx, fi, e.orelse, depth + 1)
+        if a is None or b is None:
+            return None
+        return [("alt", [a, b], e.test)]
+    if isinstance(e, ast.BinOp) and isinstance(e.op, ast.Add):
+        a, b = flatten_template(ctx, fi, e.left, depth + 1), flatten_template(ctx, fi, e.right, depth + 1)
+        if a is None or b is None:
+            return None
+        return _merge_lits(a + b)
+    if isinstance(e, ast.Call):
+        if isinstance(e.func, ast.Attribute) and e.func.attr == "format":
+            tpl = try_const(ctx, fi, e.func.value)
+            if isinstance(tpl, str):
+                import string
+                out, auto = [], 0
+                try:
+                    for lit_, field, spec, conv in string.Formatter().parse(tpl):
+                        if lit_:
+                            out.append(("lit", lit_))
+                        if field is None:
+                            continue
+                        head = field.split(".")[0].split("[")[0]
+                        if head == "":
+                            arg = e.args[auto] if auto < len(e.args) else None
+                            auto += 1
+                        elif head.isdigit():
+                            arg = e.args[int(head)] if int(head) < len(e.args) else None
+                        else:
+                            arg = next((k.value for k in e.keywords if k.arg == head), None)
+                        if arg is None or head != field:
+                            return None
+                        inner = flatten_template(ctx, fi, arg, depth + 1) if not spec and not conv else None
+                        out += inner if inner is not None else [("hole", arg, spec or None, fi)]
+                except ValueError:
+                    return None
+                return _merge_lits(out)
+            return None
+        if isinstance(e.func, ast.Attribute) and e.func.attr == "join" and len(e.args) == 1 and isinstance(e.args[0], (ast.List, ast.Tuple)):
+            sep = try_const(ctx, fi, e.func.value)
+            if isinstance(sep, str):
+                out = []
+                for i, x in enumerate(e.args[0].elts):
+                    inner = flatten_template(ctx, fi, x, depth + 1)
+                    if inner is None:
+                        return None
+                    out += ([("lit", sep)] if i and sep else []) + inner
+                return _merge_lits(out)
+        cs = ctx.cg.resolve_call(fi, e, ctx.cg.local_types(fi), set(params_of(fi.node)))
+        if cs.kind == "tucan":
+            from ..model import annotation_name
+            h = cs.target
+            rets = [r for r in own_walk(h.node) if isinstance(r, ast.Return) and r.value is not None]
+            if rets and (annotation_name(h.node.returns) or "") in ("str", "") and not any(isinstance(x, (ast.Yield, ast.YieldFrom)) for x in own_walk(h.node)):
+                alts = [flatten_template(ctx, h, r.value, depth + 1) for r in rets]
+                if all(a is not None for a in alts):
+                    return alts[0] if len(alts) == 1 else [("alt", alts)]
+        return None
+    return None
+
+
+def _merge_lits(parts: list) -> list:
+    out = []
+    for p in parts:
+        if p[0] == "lit" and out and out[-1][0] == "lit":
+            out[-1] = ("lit", out[-1][1] + p[1])
+        elif p[0] == "lit" and p[1] == "":
+            continue
+        else:
+            out.append(p)
+    return out
+
+
+def _fstring_parts(e: ast.expr, ctx=None, fi=None):
+    """(leading literal, trailing literal) of a line template"""
+    if ctx is not None and fi is not None:
+        parts = flatten_template(ctx, fi, e)
+        if parts is not None:
+            lead = parts[0][1] if parts and parts[0][0] == "lit" else ""
+            trail = parts[-1][1] if len(parts) > 1 and parts[-1][0] == "lit" else ""
+            return lead, trail
+    if not isinstance(e, ast.JoinedStr):
+        return "", ""
     lead = e.values[0].value if e.values and isinstance(e.values[0], ast.Constant) else ""
     trail = e.values[-1].value if len(e.values) > 1 and isinstance(e.values[-1], ast.Constant) else ""
     return lead, trail
@@ -529,12 +663,13 @@ def _fstring_parts(e: ast.JoinedStr):
 def r_wrap(ctx) -> RuleResult:
     res = RuleResult("R-WRAP", "writer's line prefix and continuation character equal the reader's; the reader strips exactly the prefix length; no logical line the writer emits ends in the continuation character")
     wh = _wrap_helper(ctx)
-    apps = [n for n in own_walk(wh.node) if isinstance(n, ast.Call) and isinstance(n.func, ast.Attribute) and n.func.attr == "append" and n.args and isinstance(n.args[0], ast.JoinedStr)]
+    apps = [n for n in own_walk(wh.node) if isinstance(n, ast.Call) and isinstance(n.func, ast.Attribute) and n.func.attr == "append" and n.args
+            and flatten_template(ctx, wh, n.args[0]) is not None]
     if len(apps) < 2:
-        raise AnalysisError("R-WRAP: wrap helper does not append a final and a continued f-string line")
+        raise AnalysisError("R-WRAP: wrap helper does not append a final and a continued line built from prefix + text")
     prefixes, conts = set(), set()
     for a in apps:
-        lead, trail = _fstring_parts(a.args[0])
+        lead, trail = _fstring_parts(a.args[0], ctx, wh)
         prefixes.add(lead)
         if trail:
             conts.add(trail)
@@ -576,7 +711,7 @@ def r_wrap(ctx) -> RuleResult:
     cfgw = cfg_of(wh.node)
     final_nodes, cont_nodes = set(), set()
     for a in apps:
-        lead, trail = _fstring_parts(a.args[0])
+        lead, trail = _fstring_parts(a.args[0], ctx, wh)
         n_ = cfgw.stmt_node_containing(a)
         (cont_nodes if trail else final_nodes).add(n_)
     import networkx as nx
@@ -633,6 +768,37 @@ def _last_chars(ctx, fi: FuncInfo, e: ast.expr, depth=0) -> Optional[set]:
     The empty string is represented by the element ''."""
     if depth > 6:
         return None
+    if depth == 0 or isinstance(e, (ast.JoinedStr, ast.Call, ast.BinOp)):
+        parts = flatten_template(ctx, fi, e)
+        if parts is not None and not (len(parts) == 1 and parts[0][0] == "hole" and parts[0][1] is e):
+            def last_of(ps):
+                """possible last characters of the text of ps; '' in the result: the text may be empty"""
+                out_: set = set()
+                for p in reversed(ps):
+                    if p[0] == "lit":
+                        s_ = {p[1][-1]} if p[1] else {""}
+                    elif p[0] == "hole":
+                        spec = p[2]
+                        if spec is not None:
+                            s_ = set(DIGITS) if isinstance(spec, str) and spec[-1:] in "fdeEgG" else None
+                        else:
+                            s_ = _last_chars(ctx, p[3], p[1], depth + 1)
+                    else:
+                        s_ = set()
+                        for alt in p[1]:
+                            r_ = last_of(alt)
+                            if r_ is None:
+                                s_ = None
+                                break
+                            s_ |= r_
+                    if s_ is None:
+                        return None
+                    out_ |= (s_ - {""})
+                    if "" not in s_:
+                        return out_
+                out_.add("")
+                return out_
+            return last_of(parts)
     if isinstance(e, ast.Constant):
         if isinstance(e.value, str):
             return {e.value[-1]} if e.value else {""}
@@ -781,7 +947,7 @@ def _template_calls(ctx, wh: FuncInfo):
     for fi in closure(ctx, "write"):
         for cs in sites(ctx, fi):
             if cs.kind == "tucan" and cs.target.fq == wh.fq and len(cs.node.args) >= 2:
-                out.append((fi, _resolve_template(fi, cs.node.args[1]), cs.node))
+                out.append((fi, cs.node.args[1], cs.node))
     return out
 
 
@@ -928,20 +1094,27 @@ def hole_param_kinds(fi: FuncInfo) -> dict:
 
 def _instantiate(ctx, fi: FuncInfo, tmpl: ast.expr) -> Optional[list[str]]:
     """tokens of a template line with every formatted expression replaced by a sentinel `<roles|spec>` saying what it stands
-    for (see hole_roles), followed by its source text for the reports"""
-    if isinstance(tmpl, ast.Constant) and isinstance(tmpl.value, str):
-        return tmpl.value.split()
-    if not isinstance(tmpl, ast.JoinedStr):
+    for (see hole_roles); the template may be an f-string, a str.format call, a concatenation, or be assembled from local
+    names and helper functions (flatten_template); optional pieces (one alternative empty) contribute no token"""
+    parts = flatten_template(ctx, fi, tmpl)
+    if parts is None:
         return None
-    s = ""
-    for p in tmpl.values:
-        if isinstance(p, ast.Constant):
-            s += p.value
-        else:
-            spec = try_const(ctx, fi, p.format_spec) if p.format_spec is not None else ""
-            roles = ",".join(sorted(hole_roles(ctx, fi, p.value))) or "?"
-            s += f"<{roles}|{spec}>".replace(" ", "")
-    return s.split()
+
+    def render(ps) -> str:
+        s_ = ""
+        for p in ps:
+            if p[0] == "lit":
+                s_ += p[1]
+            elif p[0] == "hole":
+                roles = ",".join(sorted(hole_roles(ctx, p[3], p[1]))) or "?"
+                s_ += f"<{roles}|{p[2] or ''}>".replace(" ", "")
+            elif p[0] == "alt":
+                alts = p[1]
+                if any(not a for a in alts):
+                    continue                      # optional piece
+                s_ += render(alts[0])
+        return s_
+    return render(parts).split()
 
 
 @rule("R-FIELDS")
@@ -1043,11 +1216,16 @@ def _check_optional_tokens(ctx, fi: FuncInfo, res: RuleResult):
     recs = token_recognizers(ctx, [ctx.cg.funcs[q] for q in ctx.cg.closure([v3.fq])])
     want = {"chg": ("CHG", [-15, -1, 1, 15], [0, 16, -16]), "rad": ("RAD", [1, 2, 3], [0, 4, -1]), "mass": ("MASS", [1, 13, 300], [0, -1])}
     found = set()
-    for n in own_walk(fi.node):
-        if not (isinstance(n, ast.Assign) and isinstance(n.value, ast.IfExp) and isinstance(n.value.body, ast.JoinedStr)):
+    # the optional pieces may be put together in the atom-line function itself or in a helper it calls for the text
+    from ..model import annotation_name
+    where = [fi] + [ctx.cg.funcs[q] for q in ctx.cg.closure([fi.fq]) if ctx.cg.funcs[q].module.name == fi.module.name and q != fi.fq
+                    and (annotation_name(ctx.cg.funcs[q].node.returns) or "") == "str"]
+    outer_fi = fi
+    for fi, n in [(f_, n_) for f_ in where for n_ in own_walk(f_.node)]:
+        if not (isinstance(n, ast.Assign) and isinstance(n.value, ast.IfExp) and flatten_template(ctx, fi, n.value.body) is not None):
             continue
         body, test, orelse = n.value.body, n.value.test, n.value.orelse
-        lead, _ = _fstring_parts(body)
+        lead, _ = _fstring_parts(body, ctx, fi)
         if not (lead.startswith(" ") and lead.endswith("=")):
             continue
         kw = lead.strip()[:-1]
@@ -1063,7 +1241,7 @@ def _check_optional_tokens(ctx, fi: FuncInfo, res: RuleResult):
             continue
         found.add(key)
         wkw, inside, outside = want[key]
-        okkw = kw == wkw and isinstance(orelse, ast.Constant) and orelse.value == ""
+        okkw = kw == wkw and try_const(ctx, fi, orelse) == ""
         # range guard by partial evaluation of the test with the walrus value stubbed
         stubs = {norm(x): None for x in ast.walk(test) if isinstance(x, ast.NamedExpr)}
 
